@@ -1,6 +1,7 @@
 package go_clipper2
 
 import (
+	"cmp"
 	"fmt"
 	"math"
 	"slices"
@@ -693,11 +694,7 @@ func horzSegSort(hs1, hs2 *HorzSegment) int {
 		return -1
 	}
 
-	if hs1.leftOp.pt.X == hs2.leftOp.pt.X {
-		return 0
-	}
-
-	return -1
+	return cmp.Compare(hs1.leftOp.pt.X, hs2.leftOp.pt.X)
 }
 
 func (c *clipperBase) convertHorzSegsToJoins() {
